@@ -92,11 +92,12 @@ def cond (t : Bool) (l : List Obj) : List Obj := if t then l else []
 
 /-- `a` is stored into the objects `tgt`: names denoting a target now hold `a` and reach `b`;
 names that hold or reach a target now reach both -/
-def link (P : Pts) (tgt a b : List Obj) : Pts :=
-  P.map (fun c =>
-    { top := c.top
-      kids := union c.kids (cond (overlaps c.top tgt) a)
-      deep := union (union c.deep (cond (overlaps c.top tgt) b)) (cond (overlaps (c.kids ++ c.deep) tgt) (a ++ b)) })
+def linkCell (tgt a b : List Obj) (c : Cell) : Cell :=
+  { top := c.top
+    kids := union c.kids (cond (overlaps c.top tgt) a)
+    deep := union (union c.deep (cond (overlaps c.top tgt) b)) (cond (overlaps (c.kids ++ c.deep) tgt) (a ++ b)) }
+
+def link (P : Pts) (tgt a b : List Obj) : Pts := P.map (linkCell tgt a b)
 
 def argCell (P : Pts) (args : List (Option Var)) (j : Nat) : Cell :=
   match args.getD j none with
@@ -198,6 +199,40 @@ def dedup {α : Type} [DecidableEq α] : List α → List α
   | [] => []
   | a :: l => if a ∈ dedup l then dedup l else a :: dedup l
 
+/-! ### checking a given table (certificate) statement by statement
+
+`closedStmt S s A` decides `step S s A ⊑ A` without building `step S s A`: a statement that only adds a cell at `x` is closed
+iff that cell is already within `A.get x`; a store is closed iff no cell of `A` grows under the link.  The translator emits
+the table it computed; the kernel only has to check it. -/
+
+def linkClosed (A : Pts) (tgt a b : List Obj) : Bool := A.all (fun c => cellSub (linkCell tgt a b c) c)
+
+def closedStmt (S : List Summary) (s : Stmt) (A : Pts) : Bool :=
+  match s with
+  | .param x i => cellSub { top := [.root i], kids := [.inner i], deep := [.inner i] } (A.get x)
+  | .global x g => cellSub { top := [.glob g], kids := [.glob g], deep := [.glob g] } (A.get x)
+  | .alias x ys => ys.all (fun y => cellSub (A.get y) (A.get x))
+  | .elem x y => cellSub { top := (A.get y).kids, kids := (A.get y).deep, deep := (A.get y).deep } (A.get x)
+  | .fresh x => cellSub { top := [.loc x] } (A.get x)
+  | .shallow x ys =>
+    cellSub { top := [.loc x], kids := ys.flatMap (fun y => (A.get y).kids), deep := ys.flatMap (fun y => (A.get y).deep) }
+      (A.get x)
+  | .pack x ys =>
+    cellSub { top := [.loc x], kids := ys.flatMap (fun y => (A.get y).top),
+              deep := ys.flatMap (fun y => (A.get y).kids ++ (A.get y).deep) } (A.get x)
+  | .store x y => linkClosed A (A.get x).top (A.get y).top ((A.get y).kids ++ (A.get y).deep)
+  | .write _ => true
+  | .gwrite _ => true
+  | .call ret f args =>
+    let s := summaryOf S f
+    s.links.all (fun l => linkClosed A (argCell A args l.1).top (cond l.2.1 (sel A args ret l.2.2))
+        (cond (!l.2.1) (sel A args ret l.2.2))) &&
+      cellSub { top := s.retTop.flatMap (sel A args ret), kids := s.retKids.flatMap (sel A args ret),
+                deep := s.retDeep.flatMap (sel A args ret) } (A.get ret)
+
+/-- the given table is closed under every statement of `p` -/
+def closedB (S : List Summary) (p : List Stmt) (A : Pts) : Bool := p.all (fun s => closedStmt S s A)
+
 def paramOf : Obj → Option Nat
   | .root i => some i
   | .inner i => some i
@@ -207,13 +242,18 @@ def globOf : Obj → Option Nat
   | .glob g => some g
   | _ => none
 
-/-- parameters the program may write (the object itself or anything below it) -/
-def mayWrite (S : List Summary) (p : List Stmt) (fuel : Nat) : List Nat :=
-  dedup ((writeSet S p (analyse S p fuel)).filterMap paramOf)
+/-- parameters the program may write (the object itself or anything below it), names bounded by the table `A` -/
+def mayWriteIn (S : List Summary) (p : List Stmt) (A : Pts) : List Nat :=
+  dedup ((writeSet S p A).filterMap paramOf)
 
-/-- process-wide objects the program may write -/
-def mayWriteGlobal (S : List Summary) (p : List Stmt) (fuel : Nat) : List Nat :=
-  dedup ((writeSet S p (analyse S p fuel)).filterMap globOf)
+/-- process-wide objects the program may write, names bounded by the table `A` -/
+def mayWriteGlobalIn (S : List Summary) (p : List Stmt) (A : Pts) : List Nat :=
+  dedup ((writeSet S p A).filterMap globOf)
+
+/-- the same with the table computed here by `fuel` passes -/
+def mayWrite (S : List Summary) (p : List Stmt) (fuel : Nat) : List Nat := mayWriteIn S p (analyse S p fuel)
+
+def mayWriteGlobal (S : List Summary) (p : List Stmt) (fuel : Nat) : List Nat := mayWriteGlobalIn S p (analyse S p fuel)
 
 /-! ## summaries (interprocedural step) -/
 
@@ -224,8 +264,7 @@ def srcOfObj : Obj → Src
   | .loc _ => .fresh
 
 /-- the summary a body induces; convention: parameter `j` is name `j`, the result is name `ret` -/
-def summarize (S : List Summary) (p : List Stmt) (fuel nparams ret : Nat) : Summary :=
-  let A := analyse S p fuel
+def summarize (S : List Summary) (p : List Stmt) (A : Pts) (nparams ret : Nat) : Summary :=
   let w := writeSet S p A
   { writes := dedup (w.filterMap (fun o => match o with
                 | .root j => some (j, false) | .inner j => some (j, true) | _ => none))
@@ -247,13 +286,14 @@ structure FnInfo where
   prog : List Stmt
   nparams : Nat
   ret : Nat
-  fuel : Nat
+  fuel : Nat        -- passes after which `analyse` is stable (used by the driver's independent recomputation)
+  table : Pts       -- the closed table the translator computed (checked, not trusted)
   deriving Repr, Inhabited
 
 /-- the summary table is closed under the bodies: what each body does (calls executed by the table) is within its own entry -/
 def closedAt (S : List Summary) (fns : List FnInfo) (f : Nat) : Bool :=
   match fns[f]? with
-  | some i => analysisOK S i.prog i.fuel && summarySub (summarize S i.prog i.fuel i.nparams i.ret) (summaryOf S f)
+  | some i => closedB S i.prog i.table && summarySub (summarize S i.prog i.table i.nparams i.ret) (summaryOf S f)
   | none => true
 
 /-! ## histories -/
